@@ -5,7 +5,7 @@ From Coq Require Import List NArith ZArith Arith Bool Lia ZifyN ZifyNat ZifyBool
 From RT Require Import Model.Bytes Model.Result Model.Varint Model.KeyCodec Model.Records
   Model.RecCodec Model.Block Model.Crc32 Model.Writer Model.Reader.
 From RT Require Import Proofs.BytesProofs Proofs.CodecProofs Proofs.BlockInitEq Proofs.BlockProofs
-  Proofs.TableProofs.
+  Proofs.WriterGuard Proofs.TableProofs.
 Import ListNotations.
 Local Open Scope N_scope.
 
@@ -106,7 +106,7 @@ Section SeekW.
 
   Lemma w_add_rio : forall st r st', w_add deflate st r = Ok st' -> rio st' = rio st.
   Proof.
-    intros st r st' H. unfold w_add in H.
+    intros st r st' H. apply w_add_ok_core in H; unfold w_add_core in H.
     destruct (negb (bytes_ltb (w_last_key st) (rec_key r))); [discriminate|].
     set (st0 := set_last_key st (rec_key r)) in *.
     set (st1 := match w_bw st0 with None => set_bw st0 (Some (new_bw st0 (rec_typ r))) | Some _ => st0 end) in *.
